@@ -164,6 +164,7 @@ func checkUserIntent(x *Ctx, r *hubRig, names []string) {
 	everAuto := map[string]bool{}   // auto-accept pairs inbound SKIs without the user: dial checks do not apply
 	cancelActive := map[pair]bool{} // a pending request was cancelled and no register followed yet
 	cancelSawPending := map[pair]bool{}
+	cancelSawCompleted := map[pair]bool{}
 	cancelSawNoConn := map[pair]bool{}
 	cancelNoConnActive := map[pair]bool{}
 	skiNode := func(ski string) string { return r.skiName(ski) }
@@ -199,6 +200,12 @@ func checkUserIntent(x *Ctx, r *hubRig, names []string) {
 				registeredInv[p] = false
 				nontrivial = true
 			case "cancel":
+				if cancelSawCompleted[p] {
+					// nothing was pending: a completed pairing is not cancelled (it is
+					// ended with UnregisterRemoteSKI), the SKI stays registered
+					cancelSawCompleted[p] = false
+					break
+				}
 				registeredInv[p] = false
 				if cancelSawPending[p] {
 					cancelActive[p] = true
@@ -217,8 +224,9 @@ func checkUserIntent(x *Ctx, r *hubRig, names []string) {
 				autoOffAt[e.A] = e.T
 			}
 		case "cancel-sees":
-			cancelSawPending[pair{e.A, e.B}] = e.N == 3  // received pairing request: a pending handshake
-			cancelSawNoConn[pair{e.A, e.B}] = e.N >= 100 // no connection registered at all when cancel was called
+			cancelSawPending[pair{e.A, e.B}] = e.N == 3   // received pairing request: a pending handshake
+			cancelSawCompleted[pair{e.A, e.B}] = e.N == 7 // a completed connection is registered
+			cancelSawNoConn[pair{e.A, e.B}] = e.N >= 100  // no connection registered at all when cancel was called
 		case "attempt":
 			// the hub decides to connect: this is where user intent must cover it;
 			// the dials of this attempt (host name, then each address) may come later
